@@ -802,17 +802,32 @@ fn suffix(k: usize, v: usize, st: &str, rng: &mut Rng, dom: u64) -> Vec<String> 
 pub fn gen_case(rng: &mut Rng, k: usize, v: usize, st: &str, steps: usize, dom: u64, malformed: bool) -> Vec<String> {
     let ar = k + v;
     let mut ls = vec![];
+    // rows generated so far: queries re-use them half of the time, so that hits are frequent
+    let mut seen: Vec<Row> = vec![];
+    let pick = |rng: &mut Rng, seen: &Vec<Row>, n: usize| -> Row {
+        if !seen.is_empty() && rng.chance(1, 2) {
+            let r = &seen[rng.below(seen.len() as u64) as usize];
+            r[..n].to_vec()
+        } else {
+            gen_row(rng, n, dom)
+        }
+    };
     for _ in 0..steps {
         let x = if rng.chance(1, 2) { "A" } else { "B" };
         let y = if rng.chance(1, 2) { "A" } else { "B" };
         let l = match rng.below(40) {
-            0..=13 => format!("{x} insert {}", show_row(&gen_row(rng, ar, dom))),
+            0..=13 => {
+                let r = gen_row(rng, ar, dom);
+                seen.push(r.clone());
+                format!("{x} insert {}", show_row(&r))
+            }
             14..=15 => {
                 let n = rng.below(5) as usize;
                 let rs: Vec<Row> = (0..n).map(|_| gen_row(rng, ar, dom)).collect();
+                seen.extend(rs.iter().cloned());
                 format!("{x} new {}", show_list(&rs))
             }
-            16..=18 => format!("{x} contains {}", show_row(&gen_row(rng, ar, dom))),
+            16..=18 => format!("{x} contains {}", show_row(&pick(rng, &seen, ar))),
             19..=21 => format!("{x} merge {y}"),
             22..=23 => format!("{x} mergenode {y}"),
             24..=25 => format!("{x} eq {y}"),
@@ -820,11 +835,11 @@ pub fn gen_case(rng: &mut Rng, k: usize, v: usize, st: &str, steps: usize, dom: 
             29 => format!("{x} isbot"),
             30..=31 => {
                 let n = rng.below(ar as u64 + 1) as usize;
-                if n == 0 { format!("{x} prefix -") } else { format!("{x} prefix {}", show_row(&gen_row(rng, n, dom))) }
+                if n == 0 { format!("{x} prefix -") } else { format!("{x} prefix {}", show_row(&pick(rng, &seen, n))) }
             }
-            32 => format!("{x} get {}", rng.below(dom)),
+            32 => format!("{x} get {}", show_row(&pick(rng, &seen, 1))),
             33 => format!("{x} keys"),
-            34 => format!("{x} fcl {}", show_row(&gen_row(rng, ar, dom))),
+            34 => format!("{x} fcl {}", show_row(&pick(rng, &seen, ar))),
             35 => format!("{x} rows"),
             36 => format!("{x} dump"),
             37 => "J deepjoin".into(),
